@@ -133,4 +133,19 @@ theorem ValidateChain_eq (n : Nat) (csOK tsOK : Bool) (chain : Val) (purpose : N
     simp [List.find?, x509util_ValidateChain, run, pack, execBlock, exec, eval, evalArgs, sbindAll, sbind, sdefine,
       fset, sget, fget, spop, binop, builtin, vprims, h0, h1]
 
+/-! ### `Supported` (method selection, C11) -/
+
+/-- `ocsp.Supported(cert)`: the certificate names at least one OCSP responder -/
+theorem Supported_eq (n : Nat) (servers : List Val) :
+    sem prims [ocsp_Supported] (n + 1) "Supported" [.obj [("OCSPServer", .list servers)]]
+      = some (.bool (!servers.isEmpty)) := by
+  rw [sem_succ]
+  cases servers with
+  | nil => simp [List.find?, ocsp_Supported, run, pack, execBlock, exec, eval, evalArgs, sbindAll, sbind, sdefine, fset, sget, fget,
+      binop, builtin, field]
+  | cons d r =>
+    have hl : (0 : Int) < (r.length : Int) + 1 := by omega
+    simp [List.find?, ocsp_Supported, run, pack, execBlock, exec, eval, evalArgs, sbindAll, sbind, sdefine, fset, sget, fget,
+      binop, builtin, field, hl]
+
 end NotationCore.Tie.Code.Ocsp
